@@ -97,6 +97,50 @@ def check(run, text, viol, counts, classes, chains=None, titrate_only=None, remo
     return cen
 
 
+class _Text:
+    def __init__(self, text):
+        self.text = text
+
+
+def check_conformation_reports(run, cen, viol, counts, classes, remove_penalised=True, text=None, chains=None):
+    """The report written for one conformation (propka.output.write_pka(..., conformation=name)): its
+    determinant table and its summary list the sites of that model once each, and nothing that the
+    conformation does not hold."""
+    import os
+    import propka.output as po
+    from .. import util
+    if cen["altloc"] or cen["ties"] or cen["duplicate_ids"]:
+        return
+    for name in run.rec["names"][:3]:
+        sites = cen["models"].get(int(name[:-1]))
+        if sites is None:
+            continue
+        path = os.path.join(util.worker_tmp(), "c01_conf_%s.pka" % name)
+        try:
+            po.write_pka(run.mol, run.mol.version.parameters, filename=path, conformation=name, verbose=False)
+            with open(path) as fh:
+                ctext = fh.read()
+        except Exception as e:
+            viol.append({"cls": "per-conformation-report-raises", "msg": "write_pka(conformation=%r): %r" % (name, e)})
+            continue
+        conf = run.rec["confs"][name]
+        held = {g["label"] for g in conf["groups"]}
+        nv = len(viol)
+        _check_summary(_Text(ctext), [s for s in sites if s["in_list"]], conf, conf, viol, counts, classes, remove_penalised)
+        keep = []
+        for v in viol[nv:]:
+            # groups completed from another model are groups of this conformation too
+            if v["cls"] == "summary-spurious" and v.get("label") in held:
+                continue
+            if v["cls"] not in ("protein-groups-covalently-coupled",):
+                v["msg"] = "report of %s: %s" % (name, v["msg"])
+            keep.append(v)
+        viol[nv:] = keep
+        if text is not None:
+            _classify_twins(viol, nv, text, chains, cfg(), multi=True)
+        counts["per_conformation_reports"] = counts.get("per_conformation_reports", 0) + 1
+
+
 def _twin_numbers(text, chains, c):
     """(chain, number) pairs that are shared by residues differing only in insertion code."""
     from .. import pdbio
